@@ -393,7 +393,7 @@ func (sc *c44Case) c42Intercept(controller any, ctx *ReceiveContext) bool {
 		if _, ok := msg.(*commands.RegisterConsumer); ok {
 			// the producer controller is about to Watch the sender: that is a
 			// silent no-op while the sender is not yet attached to the actor tree
-			if _, attached := sc.sys.tree().node(ctx.Sender().ID()); !attached {
+			if _, attached := sc.sys.tree().node(ctx.Sender().ID()); !attached && ctx.Sender().IsRunning() {
 				sc.mu.Lock()
 				sc.regBeforeAttach = append(sc.regBeforeAttach, ctx.Sender().Name())
 				sc.mu.Unlock()
